@@ -32,9 +32,10 @@ TEXT['C19'] = ("Panic-freedom of the binary decoders under contract, for arbitra
          "Trusted: byte-I/O stand-ins, String::from_utf8. Not decided: JSON/CSV/VPL text parsers, vector-tile layer decoding, container opening around I/O.")
 TEXT['C11'] = ("Claimed for the byte-level core only: Verus proves the real varint/zigzag/PBF-key/packed/length-prefixed readers and writers against the protobuf wire-format rules for all u64/i64 (encoder = LEB128 specification, decoder = 7-bit-group rule with continuation bits, zigzag bijection by bit-vector proof), and the key/value tables of a layer: push appends exactly one entry per record at the next position (positional fidelity, duplicates included), add de-duplicates to the first position, get/find are total.",
          "Trusted: byte-I/O stand-ins, HashMap via vstd's specification (obeys_key_model), T::clone returns an equal value. Not decided: the update operation itself, layer framing, feature codec, CSV join.")
+TEXT['C10'] = ("Claimed for the re-indexing core and the lookup of the operation: Verus proves that VectorTileLayer::add_from_layer appends every feature of the added layer in order with its id, geometry type and geometry bytes, that the property set its new tag ids denote in the receiving layer's tables equals the set the old ids denoted in the source layer's tables (PropertyManager::encode_tag_ids / decode_tag_ids against the MVT 2.1 section 4.4 reading of tag ids), and that the features already present keep theirs (tables only grow at the end); and that from_vectortiles_merged::get_tile_data yields a tile exactly when some source has one, merging the source tiles decoded with their source's compression in source order, declared uncompressed.",
+         "Trusted: BTreeMap stand-in (finite map; into_iter yields every pair once), derive(Clone) field-wise, A-merge-1 (tables have fewer than 2^30 entries), merge_tiles as a function of the blob list, source contract, codec axioms. Not decided: the HashMap-by-name loop of merge_tiles, the stream path, VectorTile to_blob/from_blob composition.")
 NA = {
  'C07': 'std::path / OS path resolution semantics decide the property; no contract on repository code can express it (Kani probe through real std::path timed out) — DESIGN §5',
- 'C10': 'the merge chain add_from_layer -> decode_tag_ids -> encode_tag_ids iterates GeoProperties (a BTreeMap-backed repository type) and lives next to async stream code; bringing it under contract would need a stand-in for repository code (a model, not this family) - only the table primitives it relies on are verified (under C11)',
  'C12': 'quantifies over crash points of an I/O sequence inside async closures; no function contract reaches it — DESIGN §5',
  'C13': 'quantifies over thread schedules and the kernel file offset; Kani has no threads, code does not use Verus permission types — DESIGN §5',
  'C14': 'quantifies over completion orders of tokio tasks inside futures combinators — DESIGN §5',
